@@ -23,7 +23,11 @@ CLAIMED["C03"] = {
             "(C03_unclashed_keeps_bare_name); an option string identifies one field (C03_option_identifies_field) and, composed with the token-level "
             "argparse model ARGP, passing it with a plain value token (either spelling) sets exactly that leaf's destination and leaves every other "
             "destination as the empty command line does (C03_option_changes_exactly_its_leaf, ..._eq_spelling, and their instances for the generated "
-            "option strings). The same is evaluated by the Coq spec on every observed parser.",
+            "option strings). The same is evaluated by the Coq spec on every observed parser. Since the resolver bridge the theorems are about the SOURCE: "
+            "get_conflict, _fix_conflict_explicit/_auto and the bounded while loop of resolve_and_flatten are dumped from the ast on every run and "
+            "C03_source_is_model proves that interpreting them equals resolve_gen for NONE/EXPLICIT/AUTO on every flat forest (aliased field wrappers are "
+            "represented by positions in one store; the loop's fuel is the regenerated max_attempts and provably never runs out); "
+            "C03_source_resolved_options_unique / C03_source_none_iff_clash transport the results.",
     "note": COMMON_NOTE + "The traversal order of field wrappers is computed by the harness and compared with the implementation's in every case.",
     "technique": "Coq proof over regenerated facts + vm_compute model/impl correspondence",
 }
@@ -175,7 +179,11 @@ CLAIMED["C01"] = {
             "delivers at every destination the caller's default instance or what the constructor produces - unconditionally for NONE/EXPLICIT/AUTO "
             "(C01_empty_defaults_plain_modes, since the fix: commit for Optional members), under a decidable side condition for ALWAYS_MERGE whose excluded "
             "shapes (partial default instances, mixed depths, merged Optional members) are refuted with witnesses = known findings; lemmas for the three "
-            "default propagation paths, postprocess-of-a-default = identity (falsy values included), bottom-up instantiation.",
+            "default propagation paths, postprocess-of-a-default = identity (falsy values included), bottom-up instantiation. The instantiation pipeline is "
+            "tied to the source by theorems: _fill_constructor_arguments_with_fields, FieldWrapper.__call__, _instantiate_dataclasses and "
+            "_create_dataclass_instance are dumped from the ast into the MiniPy deep embedding on every run (C01_source_fill_is_model, _call_, "
+            "_instantiate_, _create_is_model: interpreting them equals Model/Pipeline.v) and C01_source_pipeline_defaults links that model to the function "
+            "the main theorem reasons about, for the empty command line.",
     "note": COMMON_NOTE + "the dataclass constructor is modelled (`construct`); Enum name round trip modelled as identity.",
     "technique": T,
 }
